@@ -227,6 +227,70 @@ pub fn zero_x_partner(kem: KemId, sk: &[u8]) -> Option<Vec<u8>> {
     }
 }
 
+/// Valid peer public key P for the NIST private key `sk` such that the x-coordinate of sk*P is `x`
+/// (None if no curve point has that x-coordinate)
+pub fn partner_for_x(kem: KemId, sk: &[u8], x: &crate::math::U) -> Option<Vec<u8>> {
+    if kem == KemId::X25519 {
+        return None;
+    }
+    let cv = crate::math::curve(kem);
+    if !x.lt(&cv.p) {
+        return None;
+    }
+    let y = cv.sqrt(&cv.rhs(x))?;
+    if !cv.on_curve(x, &y) {
+        return None;
+    }
+    let t = cv.encode(x, &y);
+    match kem {
+        KemId::P256 => g256::inv_mul(sk, &t),
+        KemId::P384 => g384::inv_mul(sk, &t),
+        KemId::P521 => g521::inv_mul(sk, &t),
+        KemId::X25519 => None,
+    }
+}
+
+/// X25519: peer public key P for the private key `sk` such that X25519(sk, P) = `t`. Exists when `t`
+/// is the u-coordinate of a point of the prime-order subgroup of the curve (not of the twist).
+pub fn x25519_partner(sk: &[u8], t: &[u8]) -> Option<Vec<u8>> {
+    use curve25519_dalek::montgomery::MontgomeryPoint;
+    use curve25519_dalek::scalar::Scalar;
+    if sk.len() != 32 || t.len() != 32 || t[31] & 0x80 != 0 {
+        return None;
+    }
+    let mut tb = [0u8; 32];
+    tb.copy_from_slice(t);
+    let tp = MontgomeryPoint(tb);
+    let ed = tp.to_edwards(0)?;
+    if !ed.is_torsion_free() || ed.is_small_order() {
+        return None;
+    }
+    let mut kb = [0u8; 32];
+    kb.copy_from_slice(&clamp(sk));
+    let k = Scalar::from_bytes_mod_order(kb);
+    if k == Scalar::ZERO {
+        return None;
+    }
+    let p = &tp * &k.invert();
+    // independent confirmation through the ordinary X25519 function
+    let mut skb = [0u8; 32];
+    skb.copy_from_slice(sk);
+    if x25519_dalek::x25519(skb, p.0) != tb {
+        return None;
+    }
+    Some(p.0.to_vec())
+}
+
+/// Whether a 32-byte u-coordinate lies on the quadratic twist of Curve25519
+pub fn x25519_on_twist(u: &[u8]) -> bool {
+    if u.len() != 32 {
+        return false;
+    }
+    let mut b = [0u8; 32];
+    b.copy_from_slice(u);
+    curve25519_dalek::montgomery::MontgomeryPoint(b).to_edwards(0).is_none()
+}
+
 /// RFC 7748 clamping of an X25519 scalar (for comparisons "up to clamping")
 pub fn clamp(sk: &[u8]) -> Vec<u8> {
     let mut k = sk.to_vec();
